@@ -51,7 +51,7 @@ def _compute_recession_curve(specific_yield, transmissivity_m2_d, zeta_grid_mm, 
 
 @contract("spowtd.simulate_rise:compute_rise_curve#mean",
           args={"specific_yield": "obj[spowtd.specific_yield:SpecificYield]", "zeta_grid_mm": "array[real]",
-                "mean_storage_mm": "real"}, returns="array[real]", nonlinear="nra")
+                "mean_storage_mm": "real"}, returns="array[real]", nonlinear="nra", also_at_call_sites=True)
 def _compute_rise_curve_mean(specific_yield, zeta_grid_mm, mean_storage_mm, result):
     """C17: the mean of the returned curve is the requested mean (real arithmetic: adding
     c = requested mean - mean(W) to every element shifts the sum by n c)."""
@@ -62,3 +62,39 @@ def _compute_rise_curve_mean(specific_yield, zeta_grid_mm, mean_storage_mm, resu
     ensures(len(result) == len(zeta_grid_mm))
     ensures(seq_mean(result) == mean_storage_mm)
     loop(0, inv=lambda it: i == it + 1 and len(dW_mm) == len(zeta_grid_mm))
+
+
+# --------------------------------------------------------------------------- simulate_rise (C17, the command's observation vector)
+
+@contract("spowtd.specific_yield:create_specific_yield_function", args={"parameters": "yaml"},
+          returns="obj[spowtd.specific_yield:SpecificYield]")
+def _create_specific_yield_function(parameters, result):
+    """ASSUMED (the constructors and PyYAML are outside the subset; validated by bounded.simulate_checks /
+    peatclsm_checks): the object returned for a parameter document is a specific-yield function over a spline with
+    at least two knots on a non-degenerate range."""
+    may_raise(ValueError)
+    may_raise(KeyError)
+    may_raise(TypeError)
+    ensures(len(result._spline._tck[0]) >= 2 and lo_knot(result._spline) < hi_knot(result._spline))
+
+
+@contract("spowtd.simulate_rise:simulate_rise#observations", db=True,
+          args={"connection": "connection", "parameters": "file", "outfile": "file", "observations_only": "bool"},
+          returns="none",
+          ghost_results={"g_rows": "list[tuple[real,real]]", "g_sy": "obj[spowtd.specific_yield:SpecificYield]"})
+def _simulate_rise_observations(connection, parameters, outfile, observations_only):
+    """C17 at the level of the command `spowtd simulate rise --observations`: the one value written is the simulated
+    storage on exactly the measured master-curve levels, in ascending order of level; between any two of them it
+    differs by the integral of the specific yield built from the parameter file, and its mean is the mean of the
+    measured storage."""
+    requires(observations_only)
+    may_raise(ValueError)
+    may_raise(KeyError)
+    may_raise(TypeError)
+    ghost(after="cursor.execute('\\n    SELECT mean_crossing_depth_mm AS dynamic_storage_mm", let="g_rows", do=lambda: cursor.fetchall())
+    ghost(after="specific_yield = specific_yield_mod.create_specific_yield_function(", let="g_sy", do=lambda: specific_yield)
+    ensures(dump_count() == 1)
+    ensures(len(dumped(0)) == len(g_rows) and len(g_rows) >= 1)
+    ensures(forall(0, len(g_rows), lambda i: forall(0, len(g_rows), lambda j:
+            dumped(0)[j] - dumped(0)[i] == G_of(g_sy._spline, g_rows[j][1]) - G_of(g_sy._spline, g_rows[i][1]))))
+    ensures(seq_mean(dumped(0)) == seq_mean([g_rows[k][0] for k in range(len(g_rows))]))
